@@ -23,10 +23,14 @@ class Unsupported(Exception):
     pass
 
 
-def clang_ast(src, fn, incl, std="gnu++11"):
+def clang_ast(src, fn, incl, std="gnu++11", shim=None):
+    """shim: text of a translation unit fed on stdin instead of `src` (it #includes the header that holds a
+    template and instantiates it explicitly, so that the dump contains the typed instantiation)"""
     cmd = ["clang++-14", "-std=" + std, "-I" + incl, "-fsyntax-only", "-Xclang", "-ast-dump=json",
-           "-Xclang", "-ast-dump-filter=" + fn, src]
-    r = subprocess.run(cmd, stdout=subprocess.PIPE, stderr=subprocess.PIPE, text=True)
+           "-Xclang", "-ast-dump-filter=" + fn] + (["-x", "c++", "-"] if shim else [src])
+    r = subprocess.run(cmd, input=shim, stdout=subprocess.PIPE, stderr=subprocess.PIPE, text=True)
+    if shim and r.returncode != 0:
+        raise Unsupported("clang failed on the shim for %s: %s" % (src, r.stderr[-800:]))
     if r.returncode != 0 and not r.stdout.strip():
         raise Unsupported("clang failed on %s: %s" % (src, r.stderr[-800:]))
     dec, s, i, docs = json.JSONDecoder(), r.stdout, 0, []
@@ -50,6 +54,8 @@ def find_def(docs, name, cls=None):
     for d in docs: walk(d, [])
     if not found:
         raise Unsupported("no definition of %s found" % name)
+    inst = [n for n in found if any(c.get("kind") == "TemplateArgument" for c in n.get("inner", []))]
+    if inst: return inst[0]            # explicit instantiation of a template (typed), not the dependent pattern
     return found[0]
 
 
@@ -103,6 +109,9 @@ class FnTrans:
         q = qt.replace("const ", "").replace("Avoid::", "").replace("vpsc::", "").replace("dialect::", "").replace("topology::", "").replace("cola::", "").strip()
         kind = "val"
         if q.endswith("&"): q = q[:-1].strip()
+        qts = self.job.get("qual_types", {})       # exact C++ type (const / namespaces stripped) -> (lean type, val|state)
+        if q in qts:
+            return qts[q][0], (qts[q][1] if param else "val")
         if q.endswith("*"):
             q = q[:-1].strip(); kind = "out"
             if q in self.job.get("ptr_vals", []): kind = "val"     # pointer to an object read only through job["paths"]
@@ -110,7 +119,8 @@ class FnTrans:
                 base0 = {"Point": "Pt"}; base0.update(self.tmap)
                 return "Option " + base0[q], "val"
         base = {"double": "Rat", "int": "Int", "bool": "Bool", "unsigned int": "Nat", "size_t": "Nat",
-                "unsigned long": "Nat", "Point": "Pt", "unsigned": "Nat"}
+                "unsigned long": "Nat", "Point": "Pt", "unsigned": "Nat",
+                "std::vector::size_type": "Nat", "std::size_t": "Nat", "std::list::size_type": "Nat"}
         base.update({"Polygon": "List Pt", "std::vector<Point>": "List Pt", "PolygonInterface": "List Pt"})
         base.update(self.tmap)
         if q not in base:
@@ -188,6 +198,83 @@ class FnTrans:
             return b + "(" + ",".join(args) + ")"
         return None
 
+    # ---- containers: element type of `Array T` / `List T`, indexed read
+    def elem_type(self, ty):
+        for pre in ("Array ", "List "):
+            if ty.startswith(pre):
+                e = ty[len(pre):].strip()
+                if e.startswith("(") and e.endswith(")"): e = e[1:-1].strip()
+                return pre.strip(), e
+        ali = self.job.get("type_alias", {})
+        if ty in ali: return self.elem_type(ali[ty])
+        return None, None
+
+    def index_read(self, t, ty, p, it, ity, ip):
+        if ity != "Nat": raise Unsupported("%s: index of type %s" % (self.name, ity))
+        c, ety = self.elem_type(ty)
+        if c == "Array":
+            return "(aget %s %s)" % (t, it), ety, self.conj(p, ip, "decide (%s < %s.size)" % (it, t))
+        if c == "List":
+            return "(%s.getD %s default)" % (t, it), ety, self.conj(p, ip, "decide (%s < %s.length)" % (it, t))
+        raise Unsupported("%s: subscript on %s" % (self.name, ty))
+
+    def num(self, ty):
+        """numeric class of a Lean type (job["num"][ty] = dict(lit=fmt, max=text, ops={op: fmt}))"""
+        return self.job.get("num", {}).get(ty)
+
+    def lvalue_path(self, lhs):
+        """(root variable name, [("idx", node) | ("field", name)]) of an lvalue built from a variable by
+        subscripts and member selections; None if it is anything else"""
+        while lhs.get("kind") in ("ParenExpr", "ImplicitCastExpr"): lhs = lhs["inner"][0]
+        k = lhs.get("kind")
+        if k == "DeclRefExpr" and lhs["referencedDecl"]["kind"] in ("ParmVarDecl", "VarDecl"):
+            return lhs["referencedDecl"]["name"], []
+        if k == "ArraySubscriptExpr":
+            r = self.lvalue_path(lhs["inner"][0])
+            return None if r is None else (r[0], r[1] + [("idx", lhs["inner"][1])])
+        if k == "CXXOperatorCallExpr":
+            inner = [c for c in lhs["inner"] if isinstance(c, dict)]
+            callee = inner[0]
+            while callee.get("kind") == "ImplicitCastExpr": callee = callee["inner"][0]
+            if callee.get("referencedDecl", {}).get("name") == "operator[]" and len(inner) == 3:
+                r = self.lvalue_path(inner[1])
+                return None if r is None else (r[0], r[1] + [("idx", inner[2])])
+            return None
+        if k == "MemberExpr":
+            b = lhs["inner"][0]
+            while b.get("kind") in ("ImplicitCastExpr", "ParenExpr"): b = b["inner"][0]
+            if b.get("kind") == "CXXThisExpr": return None
+            r = self.lvalue_path(b)
+            return None if r is None else (r[0], r[1] + [("field", lhs["name"])])
+        return None
+
+    def assign_to(self, lhs, vt, vty, env, pad):
+        """assignment of the Lean value `vt : vty` to an lvalue with a non-empty access path:
+        returns (env', let-text, pre or None)"""
+        root, accs = self.lvalue_path(lhs)
+        if root not in env: raise Unsupported("%s: assignment to unknown %s" % (self.name, root))
+        pres = []
+        def upd(cur, cty, accs):
+            if not accs:
+                if cty != vty: raise Unsupported("%s: assign %s to element of type %s" % (self.name, vty, cty))
+                return vt
+            kind, a = accs[0]
+            if kind == "idx":
+                it, ity, ip = self.expr(a, env)
+                c, ety = self.elem_type(cty)
+                if c != "Array" or ity != "Nat": raise Unsupported("%s: element assignment into %s[%s]" % (self.name, cty, ity))
+                pres.extend([ip, "decide (%s < %s.size)" % (it, cur)])
+                return "(aset %s %s %s)" % (cur, it, upd("(aget %s %s)" % (cur, it), ety, accs[1:]))
+            fty = self.job.get("fields", {}).get((cty, a))
+            if fty is None: raise Unsupported("%s: assignment to field %s of %s" % (self.name, a, cty))
+            return "{ %s with %s := %s }" % (cur, a, upd("%s.%s" % (cur, a), fty, accs[1:]))
+        newv = upd(env[root]["lean"], env[root]["type"], accs)
+        env = dict(env)
+        ln = self.fresh(root)
+        ty = env[root]["type"]
+        env[root] = dict(lean=ln, type=ty)
+        return env, "let %s : %s := %s\n%s" % (ln, ty, newv, pad), self.conj(*pres)
+
     def expr(self, n, env):
         k = n.get("kind")
         inner = [c for c in n.get("inner", []) if isinstance(c, dict)]
@@ -207,8 +294,11 @@ class FnTrans:
                 lit = inner[0]
                 while lit.get("kind") in ("ParenExpr", "ImplicitCastExpr") and lit.get("castKind", "NoOp") in ("NoOp",): lit = lit["inner"][0]
                 if lit.get("kind") == "IntegerLiteral":
+                    nc_ = self.num(self.tmap.get("double", "Rat"))
+                    if nc_: return nc_["lit"] % lit["value"], self.tmap["double"], p
                     if self.tmap.get("double") == "SZ": return "(SZ.ofRat (%s : Rat))" % lit["value"], "SZ", p
                     return "(%s : Rat)" % lit["value"], "Rat", p
+                if self.num(self.tmap.get("double", "Rat")): raise Unsupported("%s: integral-to-floating conversion of a non-literal into %s" % (self.name, self.tmap["double"]))
                 return "((%s : %s) : Rat)" % (t, ty), "Rat", p
             if ck == "IntegralToBoolean":
                 return "(decide (%s ≠ 0))" % t, "Bool", p
@@ -227,12 +317,17 @@ class FnTrans:
             raise Unsupported("%s: cast kind %s" % (self.name, ck))
         if k == "CXXConstructExpr" and len(inner) == 1:
             return self.expr(inner[0], env)         # copy construction of a value type
+        if k == "ArraySubscriptExpr":
+            t, ty, p = self.expr(inner[0], env); it, ity, ip = self.expr(inner[1], env)
+            return self.index_read(t, ty, p, it, ity, ip)
         if k == "IntegerLiteral":
             ty = self.lean_type(n["type"]["qualType"])[0]
             return "(%s : %s)" % (n["value"], ty), ty, None
         if k == "FloatingLiteral":
             v = n["value"]
             fr = self.float_to_rat(v)
+            nc_ = self.num(self.tmap.get("double", "Rat"))
+            if nc_: return nc_["lit"] % fr, self.tmap["double"], None
             if self.tmap.get("double") == "SZ": return "(SZ.ofRat (%s : Rat))" % fr, "SZ", None
             return "(%s : Rat)" % fr, "Rat", None
         if k == "CXXBoolLiteralExpr":
@@ -263,6 +358,9 @@ class FnTrans:
             fld = n["name"]
             if ty == "List Pt" and fld == "ps":
                 return t, ty, p
+            if fld in ("first", "second") and len(ty.split(" × ")) == 2 and "(" not in ty:
+                i_ = 0 if fld == "first" else 1
+                return "%s.%d" % (t, i_ + 1), ty.split(" × ")[i_].strip(), p
             fty = self.job.get("fields", {}).get((ty, fld))
             if ty == "Pt" and fld in ("x", "y"): fty = "Rat"
             if fty is None: raise Unsupported("%s: field %s of %s" % (self.name, fld, ty))
@@ -310,6 +408,10 @@ class FnTrans:
                         pass
             a, ta, pa = self.expr(inner[0], env)
             b, tb, pb = self.expr(inner[1], env)
+            if ta == tb and self.num(ta):
+                f_ = self.num(ta)["ops"].get(op)
+                if f_ is None: raise Unsupported("%s: operator %s on %s" % (self.name, op, ta))
+                return f_ % (a, b), ("Bool" if op in ("<", ">", "<=", ">=", "==", "!=") else ta), self.conj(pa, pb)
             if op in ("+", "-", "*", "/"):
                 if ta != tb: raise Unsupported("%s: mixed arithmetic %s %s %s" % (self.name, ta, op, tb))
                 if op == "/" and ta != "Rat": raise Unsupported("%s: integer division" % self.name)
@@ -355,6 +457,8 @@ class FnTrans:
                 return "(decide (%s %s %s))" % (args[0][0], lop, args[1][0]), "Bool", self.conj(args[0][2], args[1][2])
             if opname == "operator[]":
                 t, ty, p = args[0]
+                if self.elem_type(ty)[0] in ("Array", "List"):
+                    return self.index_read(t, ty, p, args[1][0], args[1][1], args[1][2])
                 if ty.startswith("List "):
                     ety = ty[5:]
                     return "(%s.getD %s default)" % (t, args[1][0]), ety, self.conj(p, args[1][2], "decide (%s < %s.length)" % (args[1][0], t))
@@ -422,6 +526,18 @@ class FnTrans:
             if callee.get("kind") != "DeclRefExpr": raise Unsupported("%s: indirect call" % self.name)
             cname = callee["referencedDecl"]["name"]
             rawargs = inner[1:]
+            if cname == "max" and not rawargs and callee["referencedDecl"]["kind"] == "CXXMethodDecl":
+                # std::numeric_limits<T>::max()
+                lt_ = self.lean_type(n["type"]["qualType"])[0]
+                nc_ = self.num(lt_)
+                if not nc_ or "max" not in nc_: raise Unsupported("%s: numeric_limits<%s>::max()" % (self.name, lt_))
+                return nc_["max"], lt_, None
+            if cname in ("min", "max") and len(rawargs) == 2:
+                a, ta, pa = self.expr(rawargs[0], env); b, tb, pb = self.expr(rawargs[1], env)
+                if ta == tb and self.num(ta):
+                    f_ = self.num(ta)["ops"].get(cname)
+                    if f_ is None: raise Unsupported("%s: %s on %s" % (self.name, cname, ta))
+                    return f_ % (a, b), ta, self.conj(pa, pb)
             if cname in ("fabs", "abs") :
                 t, ty, p = self.expr(rawargs[0], env)
                 return "(absR %s)" % t, ty, p
@@ -485,6 +601,9 @@ class FnTrans:
         """name of the variable / state member an lvalue expression denotes, else None"""
         while lhs.get("kind") in ("ParenExpr", "UnaryOperator", "ImplicitCastExpr"): lhs = lhs["inner"][0]
         if lhs.get("kind") == "DeclRefExpr": return lhs["referencedDecl"]["name"]
+        if lhs.get("kind") in ("ArraySubscriptExpr", "CXXOperatorCallExpr", "MemberExpr"):
+            lp = self.lvalue_path(lhs)
+            if lp is not None and lp[1]: return lp[0]
         if lhs.get("kind") == "MemberExpr":
             b = lhs["inner"][0]
             while b.get("kind") == "ImplicitCastExpr": b = b["inner"][0]
@@ -573,7 +692,40 @@ class FnTrans:
             head = "".join("%s\n%s" % (l, pad) for l in lets)
             pc = self.conj(*pres)
             return head + v, head + (("(%s) &&\n%s" % (pc, pad)) if pc else "") + p
+        if k == "BinaryOperator" and s.get("opcode") == "=":
+            # chain  a = b = … = e  and/or targets with an access path (D[i][j], v[i].f)
+            targets, rhs_ = [s["inner"][0]], s["inner"][1]
+            while True:
+                r_ = rhs_
+                while r_.get("kind") in ("ParenExpr", "ImplicitCastExpr") and r_.get("castKind", "NoOp") in ("NoOp", "LValueToRValue"): r_ = r_["inner"][0]
+                if r_.get("kind") == "BinaryOperator" and r_.get("opcode") == "=":
+                    targets.append(r_["inner"][0]); rhs_ = r_["inner"][1]
+                else: break
+            paths_ = [self.lvalue_path(t_) for t_ in targets]
+            if len(targets) > 1 or (paths_[0] is not None and paths_[0][1]):
+                if any(p_ is None for p_ in paths_): raise Unsupported("%s: assignment target" % self.name)
+                t, ty, p = self.expr(rhs_, env)
+                head = ""
+                phead = ("(%s) &&\n%s" % (p, pad)) if p else ""
+                if len(targets) > 1:
+                    # the value is computed once; every target of the chain has the same (Lean) type, so no conversion happens in between
+                    tmp = self.fresh("chain")
+                    h_ = "let %s : %s := %s\n%s" % (tmp, ty, t, pad); t = tmp
+                    head += h_; phead += h_
+                for tgt, (root, accs) in reversed(list(zip(targets, paths_))):
+                    if accs:
+                        env, h_, p_ = self.assign_to(tgt, t, ty, env, pad)
+                    else:
+                        if root not in env or env[root]["type"] != ty: raise Unsupported("%s: chained assignment to %s" % (self.name, root))
+                        env = dict(env); ln = self.fresh(root); env[root] = dict(lean=ln, type=ty)
+                        h_, p_ = "let %s : %s := %s\n%s" % (ln, ty, t, pad), None
+                    head += h_
+                    phead += (("(%s) &&\n%s" % (p_, pad)) if p_ else "") + h_
+                v, pp = nxt(env)
+                return head + v, phead + pp
         if k in ("BinaryOperator", "CompoundAssignOperator") and (s.get("opcode") == "=" or k == "CompoundAssignOperator"):
+            if k == "CompoundAssignOperator" and (self.lvalue_path(s["inner"][0]) or (None, []))[1]:
+                raise Unsupported("%s: compound assignment to an element" % self.name)
             cn = self.lvalue_name(s["inner"][0])
             if cn is None: raise Unsupported("%s: assignment target" % self.name)
             if cn not in env: raise Unsupported("%s: assignment to unknown %s" % (self.name, cn))
@@ -826,6 +978,116 @@ class FnTrans:
         pre = ("(%s) &&\n%s" % (sp, pad) if sp else "") + "(match %s with\n%s)" % (scrut, "\n".join(pres))
         return val, pre
 
+    def state_pack(self, names):
+        return "()" if not names else (names[0] if len(names) == 1 else "(" + ", ".join(names) + ")")
+
+    def state_unpack(self, svar, names, tys, pad):
+        """lets that project the components of the right-nested tuple `svar` to `names`"""
+        if not names: return ""
+        if len(names) == 1: return ""
+        out, cur = "", svar
+        for i_, (nm, ty) in enumerate(zip(names, tys)):
+            last = i_ == len(names) - 1
+            out += "let %s : %s := %s\n%s" % (nm, ty, cur if last else cur + ".1", pad)
+            cur = cur + ".2"
+        return out
+
+    def for_header(self, s, env):
+        parts = s["inner"]
+        init, cond, inc, body = parts[0], parts[2], parts[3], parts[4]
+        if init.get("kind") != "DeclStmt" or len(init["inner"]) != 1: raise Unsupported("%s: for-init" % self.name)
+        iv = init["inner"][0]
+        iname = iv["name"]
+        ity = self.lean_type(iv["type"]["qualType"])[0]
+        if ity != "Nat": raise Unsupported("%s: loop index type %s" % (self.name, ity))
+        i0, t0, p0 = self.expr(iv["inner"][0], env)
+        if t0 != "Nat": raise Unsupported("%s: loop start type %s" % (self.name, t0))
+        if cond is None or cond.get("kind") != "BinaryOperator" or cond.get("opcode") != "<": raise Unsupported("%s: for-cond" % self.name)
+        cl = cond["inner"][0]
+        while cl.get("kind") in ("ImplicitCastExpr", "ParenExpr"): cl = cl["inner"][0]
+        if cl.get("kind") != "DeclRefExpr" or cl["referencedDecl"]["name"] != iname: raise Unsupported("%s: for-cond lhs" % self.name)
+        bound, tb, pb = self.expr(cond["inner"][1], env)
+        if tb != "Nat": raise Unsupported("%s: loop bound type" % self.name)
+        it = inc
+        while it.get("kind") in ("ParenExpr",): it = it["inner"][0]
+        if it.get("kind") != "UnaryOperator" or it.get("opcode") != "++": raise Unsupported("%s: for-inc" % self.name)
+        tg = it["inner"][0]
+        while tg.get("kind") in ("ParenExpr",): tg = tg["inner"][0]
+        if tg.get("kind") != "DeclRefExpr" or tg["referencedDecl"]["name"] != iname: raise Unsupported("%s: for-inc target" % self.name)
+        assigned = self.assigned_vars(body, set())
+        if iname in assigned: raise Unsupported("%s: loop index assigned in body" % self.name)
+        # the bound is evaluated once: it must not depend on anything the body changes
+        bvars = self.vars_read(cond["inner"][1])
+        if bvars & assigned: raise Unsupported("%s: loop bound depends on %s, assigned in the body" % (self.name, sorted(bvars & assigned)))
+        return iname, i0, bound, self.conj(p0, pb), body, assigned
+
+    def vars_read(self, n, acc=None):
+        acc = set() if acc is None else acc
+        if n.get("kind") == "DeclRefExpr" and n.get("referencedDecl", {}).get("kind") in ("ParmVarDecl", "VarDecl"):
+            acc.add(n["referencedDecl"]["name"])
+        if n.get("kind") == "CXXThisExpr": acc.add("this")
+        for c in n.get("inner", []):
+            if isinstance(c, dict): self.vars_read(c, acc)
+        return acc
+
+    def for_range(self, s, rest, env, cont, ind):
+        """`for (unsigned i = e0; i < bound; ++i) body` with no `return` in the body (nesting allowed):
+        `forRange (fun i state => body) (bound - e0) e0 state`, state = the variables the body assigns"""
+        pad = "  " * ind
+        iname, i0, bound, phdr, body, assigned = self.for_header(s, env)
+        carried = sorted(v for v in assigned if v in env)
+        if not carried: raise Unsupported("%s: loop without effect" % self.name)
+        ctys = [env[c]["type"] for c in carried]
+        benv = dict(env)
+        iln = self.fresh(iname)
+        benv[iname] = dict(lean=iln, type="Nat")
+        cnames = []
+        for c in carried:
+            ln = self.fresh(c); cnames.append(ln); benv[c] = dict(lean=ln, type=env[c]["type"])
+        if len(carried) == 1:
+            svar = cnames[0]
+        else:
+            svar = self.fresh("st")
+        sty = " × ".join(ctys)
+        pad2 = "  " * (ind + 2)
+        unpack = self.state_unpack(svar, cnames, ctys, pad2)
+        saved_loop, saved_wrap, saved_brk = self._loopctx, getattr(self, "_retwrap", None), getattr(self, "_breakcont", None)
+        self._loopctx, self._retwrap, self._breakcont = None, None, None
+        try:
+            bv, bp = self.block([body], benv, lambda e: (self.state_pack([e[c]["lean"] for c in carried]), "true"), ind + 2)
+        finally:
+            self._loopctx, self._retwrap, self._breakcont = saved_loop, saved_wrap, saved_brk
+        # the body becomes a named definition `<f>_body<k> <fixed variables> i state` (+ `_pre`), so that the text stays
+        # linear in the nesting depth and bridge lemmas can be stated per loop body
+        used = self.vars_read(body)
+        keep_all = bool(self.paths) or bool(getattr(self, "tstruct", None))
+        fixed = [(c, env[c]["lean"], env[c]["type"]) for c in env if c not in carried and (keep_all or c in used)]
+        self.nloops += 1
+        hname = "%s_body%d" % (self.name, self.nloops)
+        fixed_sig = "".join("(%s : %s) " % (l, t) for _, l, t in fixed)
+        fixed_args = "".join(" " + l for _, l, t in fixed)
+        self.helpers.append(
+            "def %s %s(%s : Nat) (%s : %s) : %s :=\n  %s%s\n\n" % (hname, fixed_sig, iln, svar, sty, sty, unpack.replace(pad2, "  "), bv.replace("\n" + pad2, "\n  ")) +
+            "def %s_pre %s(%s : Nat) (%s : %s) : Bool :=\n  %s%s\n\n" % (hname, fixed_sig, iln, svar, sty, unpack.replace(pad2, "  "), bp.replace("\n" + pad2, "\n  ")))
+        lam_v = "(%s%s)" % (hname, fixed_args)
+        lam_p = "(%s_pre%s)" % (hname, fixed_args)
+        s0 = self.state_pack([env[c]["lean"] for c in carried])
+        env2 = dict(env)
+        outnames = []
+        for c in carried:
+            ln = self.fresh(c); outnames.append(ln); env2[c] = dict(lean=ln, type=env[c]["type"])
+        if len(carried) == 1:
+            rvar, post = outnames[0], ""
+        else:
+            rvar = self.fresh("st")
+            post = self.state_unpack(rvar, outnames, ctys, pad)
+        call = "forRange %s (%s - %s) %s %s" % (lam_v, bound, i0, i0, s0)
+        head = "let %s : %s := %s\n%s%s" % (rvar, sty, call, pad, post)
+        v, p = self.block(rest, env2, cont, ind)
+        pre = "forRangePre %s %s (%s - %s) %s %s &&\n%s" % (lam_p, lam_v, bound, i0, i0, s0, pad)
+        if phdr: pre = "(%s) &&\n%s%s" % (phdr, pad, pre)
+        return head + v, pre + head + p
+
     def carried_tuple(self, env):
         cs = self._loopctx["carried"]
         if not cs: return "()"
@@ -836,11 +1098,13 @@ class FnTrans:
         """for (T i = e0; i < bound; i++ / ++i) body  with early `return` allowed in body.
         Emitted as a structurally recursive helper on fuel = bound - e0 carrying the variables the
         body assigns; the result is (Option <function result>, carried state)."""
-        if self._loopctx is not None: raise Unsupported("%s: nested loops" % self.name)
-        if getattr(self, "_retwrap", None): raise Unsupported("%s: loop inside early-exit if" % self.name)
         pad = "  " * ind
         parts = s["inner"]
         init, cond, inc, body = parts[0], parts[2], parts[3], parts[4]
+        if not self.has_return(body):
+            return self.for_range(s, rest, env, cont, ind)
+        if self._loopctx is not None: raise Unsupported("%s: nested loops with return" % self.name)
+        if getattr(self, "_retwrap", None): raise Unsupported("%s: loop inside early-exit if" % self.name)
         if init.get("kind") != "DeclStmt" or len(init["inner"]) != 1: raise Unsupported("%s: for-init" % self.name)
         iv = init["inner"][0]
         iname = iv["name"]
@@ -1046,7 +1310,7 @@ def run_job_body(job, repo, known):
     job = dict(job)
     resolve_constants(job, src, incl)
     with ThreadPoolExecutor(16) as ex:
-        asts = list(ex.map(lambda fn: clang_ast(src, job.get("filters", {}).get(fn, fn), incl), job["functions"]))
+        asts = list(ex.map(lambda fn: clang_ast(src, job.get("filters", {}).get(fn, fn), incl, shim=job.get("shim")), job["functions"]))
     text = ""
     if job.get("emit_constants"):
         # the values read from the C++ also become Lean constants `k_<name>` that tie theorems can mention
